@@ -11,6 +11,10 @@ CHECKS = {
   text="Bounded symbolic model checking, at object level, of the GenBank path (Record.to_biopython -> Record.from_biopython with every feature class's to/from_biopython) and the JSON path (record_to_json / feature_to_json -> record_from_json / feature_from_json / location_from_string) on a record with a gene, 1-2 (thorough: 3) protoclusters (core inside extent, optionally origin-spanning, optionally identical coordinates), the candidate clusters and regions the real formation code builds, and an optional subregion, all coordinates and the record length symbolic: the reloaded record has the same genes, protoclusters (product, location, core, cutoff, neighbourhood, number), candidates (kind, location, members, number), subregions and regions (location, candidate and subregion numbers, number) and gene-to-region links; converting the reloaded record again gives an identical feature table (fixed point); a second reload equals the first.",
   note="The text layers - Bio.SeqIO GenBank writer/parser and json.dumps/loads - are modelled as identity on the feature / JSON tree and are outside the claim, as are domains, motifs, modules, gene functions and the sequence content (a length carrier).",
   ref="3/C10"),
+ "C11": dict(
+  text="Bounded symbolic model checking, at object level, of save / regenerate cycles: RuleDetectionResults + CDSResults (one protocluster with symbolic core/extent/cutoff/neighbourhood, simple or origin-spanning; saved schema version symbolic), TTAResults (codon positions, record GC content and old/new thresholds symbolic reals, schema symbolic), HmmerResults.from_json + refilter (2 hits with symbolic coordinates / scores / e-values, old and new max e-value / min score symbolic, record id and schema matching or not) and NRPS/PKS Module.to_json/from_json (symbolic domain names, lengths 2-3 and carrier-protein-led length 4): results saved, regenerated and saved again are identical trees, the regenerated results add the same features, results of another schema version / record are discarded, looser settings are refused and stricter ones refiltered exactly.",
+  note="JSON text (json.dumps/loads) is identity on the tree; main.run_module orchestration, the sideloader (jsonschema) and other modules are outside the claim.",
+  ref="3/C11"),
  "C12": dict(
   text="Bounded symbolic model checking of write_to_genbank / _build_base_record / _build_record_from_cross_origin / _adjust_features / _adjust_protocluster / _adjust_motif on a region (simple or origin-spanning) with a protocluster, candidate cluster, optional subregion, a gene (simple or origin-spanning on either strand) and a prepeptide-style motif, with symbolic coordinates and record length and - the point of doing it symbolically - symbolic record-wide numbers of the areas (any region of any record): the extract has the region's length, contains every feature shifted so that it covers the same bases (for all x), all numbers and cross references are renumbered from 1 consistently, core/leader locations are shifted with the region, and the full record's locations and qualifiers are unchanged afterwards.",
   note="Object level only: SeqRecord slicing/concatenation is modelled on the feature table (FakeSeqRecord, following Biopython's documented behaviour), seqio.write is captured at call time; GenBank text and re-parsing are outside the claim. One candidate cluster per region.",
